@@ -39,6 +39,7 @@ import (
 var run *vlib.Run
 var knownExtra = map[string]bool{}
 var logAll = os.Getenv("C01_LOG") != ""
+var hiddenFlags = map[string]bool{}
 
 type flagDef struct {
 	Name, Type, Def string
@@ -52,6 +53,11 @@ func discoverFlags(mod string) []flagDef {
 	}
 	var out []flagDef
 	m.Flags().VisitAll(func(f *pflag.Flag) {
+		if f.Hidden {
+			// compatibility switches that are not part of the documented option set
+			hiddenFlags[mod+":"+f.Name] = true
+			return
+		}
 		out = append(out, flagDef{f.Name, f.Value.Type(), f.DefValue})
 	})
 	sort.Slice(out, func(i, j int) bool { return out[i].Name < out[j].Name })
@@ -187,12 +193,24 @@ func (w *worker) blameSearch(st *stats, c caseDef, canon shape.Shape, path, kind
 		k := k
 		comps = append(comps, comp{flagString(url.Values{k: c.Flags[k]}), func(x *caseDef) { x.Flags[k] = c.Flags[k] }})
 	}
-	if c.ShapeIdx != 0 || c.Presign {
-		comps = append(comps, comp{shapeClass(c), func(x *caseDef) { x.Shape, x.ShapeIdx, x.Presign = c.Shape, c.ShapeIdx, c.Presign }})
+	if c.Presign {
+		comps = append(comps, comp{"already-signed-by-relic", func(x *caseDef) { x.Presign = true }})
+	}
+	if c.ShapeIdx != 0 {
+		comps = append(comps, comp{c.Shape.Class, func(x *caseDef) { x.Shape, x.ShapeIdx = c.Shape, c.ShapeIdx }})
 	}
 	n := len(comps)
 	if n == 0 {
-		return shapeClass(c)
+		return c.Shape.Class
+	}
+	{
+		// does the baseline itself show it? then nothing specific to this case is to blame
+		x := c
+		x.Shape, x.ShapeIdx, x.Presign = canon, 0, false
+		x.Key, x.Hash, x.Flags = keyRSA, crypto.SHA256, url.Values{}
+		if w.reproducesMemo(st, x, path, kind) {
+			return canon.Class
+		}
 	}
 	if n == 1 {
 		return comps[0].name
@@ -286,6 +304,7 @@ func main() {
 		}
 		perTypeCases[t.Name]++
 		var os2 [2]obs
+		anyFlaky := false
 		for pi, path := range []string{"standalone", "server"} {
 			o := w.evalPath(c, path)
 			os2[pi] = o
@@ -309,7 +328,28 @@ func main() {
 			default:
 				run.Outcome(t.Name + ":refused:" + why)
 			}
+			flaky := false
+			if len(o.Viols) > 0 && o.Viols[0].Kind != "panic" {
+				// believe a failure only if it repeats: re-run the identical case three times
+				same := 0
+				for k := 0; k < 3; k++ {
+					o2 := w.evalPath(c, path)
+					if len(o2.Viols) > 0 && o2.Viols[0].Kind == o.Viols[0].Kind {
+						same++
+					}
+				}
+				if same < 3 {
+					flaky = true
+					anyFlaky = true
+					v := o.Viols[0]
+					report(fmt.Sprintf("flaky:%s:%s", t.Name, v.Kind),
+						fmt.Sprintf("[%s] %s :: %s -- but only %d of 3 identical re-runs showed it again: the outcome of signing this input is not deterministic", path, c.id(path), firstLines(v.Detail, 6), same), c.replay(path))
+				}
+			}
 			for _, v := range o.Viols {
+				if flaky {
+					break
+				}
 				var key string
 				switch v.Kind {
 				case "panic":
@@ -335,7 +375,9 @@ func main() {
 			}
 		}
 		a, b := os2[0], os2[1]
-		if a.Result != "skipped" && a.Result != b.Result && a.Result != "panic" && b.Result != "panic" {
+		if anyFlaky {
+			// nothing to compare
+		} else if a.Result != "skipped" && a.Result != b.Result && a.Result != "panic" && b.Result != "panic" {
 			sub := w.blameSearch(st, c, canon, "both", "paths-disagree")
 			report(fmt.Sprintf("paths-disagree:%s:standalone-%s-server-%s:%s", t.Name, a.Result, b.Result, sub),
 				fmt.Sprintf("%s :: standalone: %s %s / server: %s %s", c.id("both"), a.Result, a.Err, b.Result, b.Err), c.replay("both"))
@@ -453,6 +495,12 @@ func main() {
 		}
 		sort.Strings(un)
 		run.Set("string_flags_without_alphabet", un)
+		var hid []string
+		for k := range hiddenFlags {
+			hid = append(hid, k)
+		}
+		sort.Strings(hid)
+		run.Set("hidden_flags_not_enumerated", hid)
 		run.Set("cases_planned_pairs", idx)
 	}
 	finish()
